@@ -82,7 +82,12 @@ func FamilyOf(prop string, seed, i uint64) string {
 			return "keepalive"
 		}
 		return "reconn"
-	case "C12", "C19":
+	case "C19":
+		if i%4 == 3 {
+			return "reconn"
+		}
+		return "base"
+	case "C12":
 		if i%3 == 0 {
 			return "base"
 		}
